@@ -43,7 +43,7 @@ REGISTRATION = {
             "records of small blobs (1-17 parts) and one real > 1 GB virtual blob per quick run.",
 }
 
-MODULES = ["OllamaVerif.Properties.C03"]
+MODULES = ["OllamaVerif.Properties.C03", "OllamaVerif.Tie.C03"]
 THEOREMS = [
     "OllamaVerif.C03.pull_success_complete",
     "OllamaVerif.C03.pull_success_sizes",
@@ -71,6 +71,16 @@ THEOREMS = [
     "OllamaVerif.C03.dup_digest_skips_verification",
     "OllamaVerif.C03.empty_digest_panics",
     "OllamaVerif.C03.size_lie_accepted",
+    "OllamaVerif.C03.pull_success_preserves_names",
+    "OllamaVerif.C03.history_every_state_intact",
+    "OllamaVerif.C03.history_inv",
+    "OllamaVerif.C03.history_resolves",
+    "OllamaVerif.C03.republished_tag_installs_each_version",
+    "OllamaVerif.Tie.C03.tree_is_repaired",
+    "OllamaVerif.Tie.C03.model_reproduces_probes",
+    "OllamaVerif.Tie.C03.tree_pull_success_complete",
+    "OllamaVerif.Tie.C03.tree_history_every_state_intact",
+    "OllamaVerif.Tie.C03.tree_pull_no_panic",
 ]
 FILES = ["zz_verif_c03_test.go", "zz_verif_c03net_test.go", "zz_verif_c03gen_test.go", "zz_verif_c03big_test.go", "zz_verif_c03two_test.go", "zz_verif_c03json_test.go", "zz_verif_c03rep_test.go"]
 OVERLAY = {"server/" + f: "server/" + f for f in FILES}
@@ -96,7 +106,44 @@ def crash_site(out):
     return (fn.group(1).replace("github.com/ollama/ollama/", "") if fn else "unknown"), (msg.group(1)[:160] if msg else "no panic message")
 
 
+PROBES = ["getvalue-realm", "empty-digest", "f6-errorpage-then-404", "dup-digest-flip", "flip-single",
+          "flip-single-verifying-announced"]
+
+
+def regenerate_variant(ctx):
+    """Tie 1: WHICH variant of the model the tree under test is.  The real getValue / downloadBlob / PullModel are
+    executed on the witness inputs of the findings (TestVerifC03Variant); the observations become
+    Generated/C03_Variant.lean; Tie/C03.lean computes the model's variant flags from them, decides that the model under
+    those flags reproduces every observation, that the flags are the repaired ones, and instantiates the property
+    theorems for the tree.  A regression (e.g. back to the verify loop after all downloads) leaves those theorems
+    unprovable."""
+    rc, out, outdir = ctx.go_test("./server/", OVERLAY, "^TestVerifC03Variant$", timeout=900)
+    obs = {}
+    p = os.path.join(outdir, "variant.txt")
+    if rc == 0 and os.path.exists(p):
+        for line in open(p):
+            f = line.split()
+            if len(f) == 2:
+                obs[f[0]] = f[1]
+    if rc != 0 or any(k not in obs for k in PROBES):
+        # a probe that kills the process is reported by the main driver (probe marker in progress.txt); here the
+        # facts simply stay those of the last good run and the run is marked
+        ctx.notes.append("variant probes did not complete; Generated/C03_Variant.lean not rewritten: " + out[-300:])
+        return
+    body = ("-- REGENERATED on every run by vlib/checks/c03.py: the real getValue / downloadBlob / PullModel of the tree under\n"
+            "-- test EXECUTED on the witness inputs of the findings F5, C03-emptydigest, F6, C03-dupdigest, C03-verifywindow\n"
+            "-- (harness/overlay/server/zz_verif_c03gen_test.go TestVerifC03Variant). Do not edit.\n"
+            "namespace OllamaVerif.Generated.C03\n"
+            "/-- (probe, what the real code did) -/\n"
+            "def probes : List (String × String) := [\n  "
+            + ",\n  ".join(f'("{k}", "{obs[k]}")' for k in PROBES) + "]\n"
+            "end OllamaVerif.Generated.C03\n")
+    core.write_generated("OllamaVerif/Generated/C03_Variant.lean", body)
+    ctx.coverage["variant_probes"] = {k: obs[k] for k in PROBES}
+
+
 def run(ctx):
+    regenerate_variant(ctx)
     ctx.lean_check(MODULES, THEOREMS)
     env = {"VERIF_N": ctx.scale(400, 12000), "VERIF_NCH": ctx.scale(2000, 60000),
            "VERIF_NPLAN": ctx.scale(40, 2000), "VERIF_NTWO": ctx.scale(40, 1500), "VERIF_NREP": ctx.scale(150, 4000), "VERIF_CORPUS": os.path.join(core.ROOT, "corpus", "C03")}
